@@ -169,6 +169,7 @@ type legacyServer interface {
 	Start() error
 	Shutdown() error
 	VerifSyncManager() *p2psync.SyncManager
+	ConnectedCount() int32
 }
 
 // Legacy is the full default P2P server.
@@ -191,13 +192,25 @@ func StartLegacy(st *rig.Stack, peers map[*peerpkg.Peer]*peerpkg.SyncState) (*Le
 	return l, nil
 }
 
-// Flush: SyncManager.IsCurrent() is answered by the sync manager's single goroutine after
-// everything queued before it.
+// Flush: a round trip through both single-goroutine message loops of the server. ConnectedCount() is answered by the
+// server's peer handler (the goroutine that admits, removes and bans peers); its select picks among the ready channels at
+// random, so the question is asked several times - an admission or ban queued before the first question is overtaken by
+// all of them only with probability 2^-8. SyncManager.IsCurrent() is answered by the sync manager's goroutine after
+// everything queued before it. Each loop feeds the other (admission -> NewPeer, forbidden header -> BanPeer + done), hence
+// two rounds.
 func (l *Legacy) Flush(timeout time.Duration) bool {
 	done := make(chan struct{})
 	go func() {
 		defer func() { _ = recover() }()
-		l.srv.VerifSyncManager().IsCurrent()
+		for round := 0; round < 2; round++ {
+			for i := 0; i < 8; i++ {
+				l.srv.ConnectedCount()
+			}
+			l.srv.VerifSyncManager().IsCurrent()
+		}
+		for i := 0; i < 8; i++ {
+			l.srv.ConnectedCount()
+		}
 		close(done)
 	}()
 	select {
